@@ -631,6 +631,8 @@ func runCtl(in []int64) []int64 {
 	} else {
 		cmd.TargetObject = &metav1.OwnerReference{APIVersion: sch.SchemeGroupVersion.String(), Kind: "Queue", Name: fmt.Sprintf("n%d", name)}
 	}
+	// the incarnation the Command was issued for (what the CLI writes into the reference)
+	cmd.TargetObject.UID = types.UID(fmt.Sprintf("uid-of-n%d", name))
 	if present {
 		if _, err := vc.BusV1alpha1().Commands(cmdNS).Create(ctx, cmd.DeepCopy(), metav1.CreateOptions{}); err != nil {
 			panic(err)
@@ -755,6 +757,18 @@ func runCtl(in []int64) []int64 {
 		panic(fmt.Sprintf("job controller: %d AddRateLimited calls for %d extra Delete calls", jobCtl.VerifCmdRetried(), retried))
 	}
 	out = append(out, int64(retried))
+	// does the request identify the incarnation (TargetObject.UID) the Command was issued for?
+	carried, wrong := 0, 0
+	for _, r := range reqs {
+		switch r.JobUid {
+		case "":
+		case cmd.TargetObject.UID:
+			carried++
+		default:
+			wrong++
+		}
+	}
+	out = append(out, int64(carried), int64(wrong))
 	return out
 }
 
@@ -781,6 +795,10 @@ func laws(sel int, in, got []int64, law func(lsel int, lin []int64, sig string))
 	}
 	lin := append(append([]int64{}, in...), got...)
 	law(100+sel, lin, "")
+	if sel == 2 {
+		law(105, lin, "")                              // no request names another incarnation of the target
+		law(106, lin, "C20-target-uid-not-checked") // every request identifies the incarnation the Command names
+	}
 }
 
 func gen(rng *vh.Rng, n int, emit func(id string, sel int, in []int64, kind string, nontrivial bool, desc any)) {
@@ -809,7 +827,7 @@ func gen(rng *vh.Rng, n int, emit func(id string, sel int, in []int64, kind stri
 			n2 = r.Range(1, 2)
 		}
 		var sched []int64
-		exhaust := i%4 >= 2
+		exhaust := ctrl == 2 && i%4 >= 2 // only the queue controller has a retry budget
 		if exhaust {
 			mx = r.Range(0, 3)
 			G = 1
